@@ -65,8 +65,15 @@ func (h *scriptHook) OnPacketRead(cl *mqtt.Client, pk packets.Packet) (packets.P
 	if h.read == "reject" {
 		return pk, packets.ErrRejectPacket
 	}
-	if h.read == "modify" {
+	switch h.read {
+	case "modify":
 		pk.Payload = append(append([]byte{}, pk.Payload...), []byte("|r"+h.name)...)
+	case "fail":
+		return pk, errors.New("read hook failed")
+	case "failmod":
+		// a hook that fails half way: its (partly modified) packet comes back together with the error
+		pk.Payload = append(append([]byte{}, pk.Payload...), []byte("|FAILED"+h.name)...)
+		return pk, errors.New("read hook failed")
 	}
 	return pk, nil
 }
@@ -93,7 +100,7 @@ func (h *scriptHook) OnPublish(cl *mqtt.Client, pk packets.Packet) (packets.Pack
 
 func checkC19(c *vk.Ctx) {
 	c.Rule = "stacks of 1-3 scripted hooks (harness types embedding mqtt.HookBase) x OnPublish behaviour {pass, modify, reject, ignore, code error, plain error} (exhaustive for stacks <=2, PRNG-sampled for 3) x protocol version 4/5 x QoS 0/1/2, retained publish to a topic with a QoS 2 subscriber: " +
-		"hooks invoked in registration order; each modifying hook sees its predecessor's output (payload tags accumulate); a publish that any hook rejected/ignored/answered with an error reaches no subscriber and is not retained; OnPacketRead rejection means no processing; authentication and ACL stacks allow iff any hook allows. nontrivial = every distinct configuration executed"
+		"hooks invoked in registration order; each modifying hook sees its predecessor's output (payload tags accumulate); a publish that any hook rejected/ignored/answered with an error reaches no subscriber and is not retained; OnPacketRead stacks of 1-3 hooks over {pass, modify, reject, fail (error, packet unchanged), failmod (error together with a partly modified packet)}, exhaustive, v4/v5: rejection means no processing and no later hook runs, a hook that failed contributes no modification, every hook's observed input and the delivered payload equal the chain of successful outputs; authentication and ACL stacks allow iff any hook allows. nontrivial = every distinct configuration executed"
 	c.Assumptions = []string{"hooks after the first rejecting/erroring OnPublish hook are not required to run", "for rejected publishes no acknowledgement is required (statement: the publisher may receive a negative acknowledgement)"}
 	beh := []string{"pass", "modify", "reject", "ignore", "code", "plain"}
 	var stacks [][]string
@@ -125,11 +132,20 @@ func checkC19(c *vk.Ctx) {
 		c19Publish(c, j.stack, j.ver, j.qos)
 	})
 	// OnPacketRead stacks
-	for _, st := range [][]string{{"pass"}, {"reject"}, {"pass", "reject"}, {"modify", "pass"}, {"modify", "modify"}, {"reject", "pass"}} {
-		for _, v := range []byte{4, 5} {
-			c19Read(c, st, v)
+	var readStacks [][]string
+	readModes := []string{"pass", "modify", "reject", "fail", "failmod"}
+	for _, a := range readModes {
+		readStacks = append(readStacks, []string{a})
+		for _, b := range readModes {
+			readStacks = append(readStacks, []string{a, b})
+			for _, d := range readModes {
+				readStacks = append(readStacks, []string{a, b, d})
+			}
 		}
 	}
+	vk.Parallel(len(readStacks)*2, 0, func(i int) {
+		c19Read(c, readStacks[i/2], []byte{4, 5}[i%2])
+	})
 	// auth / acl stacks
 	for _, st := range [][]string{{"allow"}, {"deny"}, {"deny", "allow"}, {"allow", "deny"}, {"deny", "deny"}, {"deny", "deny", "allow"}, {}} {
 		c19Auth(c, st)
@@ -254,7 +270,11 @@ func c19Read(c *vk.Ctx, stack []string, ver byte) {
 	}
 	rejected := false
 	want := "M"
+	var wantLog []string
 	for i, bh := range stack {
+		// every hook up to the rejecting one runs, and sees what the hooks before it that succeeded made of the packet;
+		// a hook that returned an error other than a rejection has produced no output
+		wantLog = append(wantLog, fmt.Sprintf("read:h%d:%s", i+1, want))
 		if bh == "reject" {
 			rejected = true
 			break
@@ -264,7 +284,10 @@ func c19Read(c *vk.Ctx, stack []string, ver byte) {
 		}
 	}
 	attrs := map[string]string{"read_stack": strings.Join(stack, ","), "v5": fmt.Sprint(ver == 5)}
-	wit := map[string]any{"read_stack": stack, "hook_log": lg.get()}
+	wit := map[string]any{"read_stack": stack, "hook_log": lg.get(), "expected_hook_log": wantLog}
+	if got := lg.get(); strings.Join(got, " ") != strings.Join(wantLog, " ") {
+		c.Violate("C19/read-hook-input-chain", attrs, fmt.Sprintf("read hooks saw %v, expected %v (registration order, each seeing the output of the hooks before it that succeeded)", got, wantLog), wit)
+	}
 	if rejected {
 		if len(deliveries) > 0 || hasType(resp, rc.PUBACK) != nil {
 			c.Violate("C19/processed-after-read-rejection", attrs, fmt.Sprintf("packet rejected by OnPacketRead was processed: deliveries %v, ack %v", deliveries, hasType(resp, rc.PUBACK) != nil), wit)
